@@ -237,3 +237,41 @@ def accessor_steps(sw, root, quick, rnd):
                     sw.fail('C08', key + ':c01', f'after put_line_comment({t!r}): {v}')
                     sw.fail('C01', key + ':c01', f'after put_line_comment({t!r}): {v}')
                 sw.post_edit(r, key, f'put_line_comment({t!r})', v)
+
+
+def badopt_steps(sw, paths, quick, rnd):
+    """C12: an option value out of range must leave the tree untouched when the edit raises - every (option, invalid
+    value) of the C20 table x sampled statement / expression targets x {replace, insert before, delete}.  Statement
+    targets whose block sits on its header line (`if x: a`) are always included: they are the ones a put prepares
+    (normalises) before the element is placed."""
+    from contracts.b_options import _vals
+    from contracts.b_lib import follow
+    _, bad = _vals()
+    pairs = [(o, v) for o, vs in sorted(bad.items()) for v in vs if v is not object]
+    root = sw.fresh()
+    stmts, exprs, tight = [], [], []
+    for path, cat, cls in paths:
+        if cat == 'stmt' and path[-1][1] is not None:
+            n = follow(root, path)
+            par = n.parent if n else None
+            if par is not None and getattr(par.a, 'lineno', None) is not None and par.a.__class__.__name__ != 'Module' \
+                    and n.ln == par.ln:
+                tight.append(path)
+            else:
+                stmts.append(path)
+        elif cat == 'expr':
+            exprs.append(path)
+    k = 3 if quick else 12
+    sel = tight[:k * 2] + (rnd.sample(stmts, k) if len(stmts) > k else stmts)
+    sel_e = rnd.sample(exprs, k) if len(exprs) > k else exprs
+    for path in sel:
+        for o, v in pairs:
+            kw = {o: v}
+            sw.step(path, f'replace("pass", {o}={v!r})', lambda r, n, kw=kw: n.replace('pass', **kw))
+            sw.step(path, f'insert_before("zz = 1", {o}={v!r})',
+                    lambda r, n, kw=kw: n.parent.put_slice('zz = 1', n.pfield.idx, n.pfield.idx, n.pfield.name, **kw))
+            sw.step(path, f'remove({o}={v!r})', lambda r, n, kw=kw: n.remove(**kw))
+    for path in sel_e:
+        for o, v in pairs:
+            kw = {o: v}
+            sw.step(path, f'replace("zz", {o}={v!r})', lambda r, n, kw=kw: n.replace('zz', **kw))
